@@ -28,6 +28,7 @@ type evalCtx struct {
 	loopVar func(n int, name string) (Val, bool)
 	entryName func(name string) (Val, bool)
 	inQuant bool
+	loopEntry *State
 }
 
 // load reads memory for a contract expression. Outside quantifiers the
@@ -310,6 +311,10 @@ var convNames = map[string]types.BasicKind{
 	"uint": types.Uint, "uint8": types.Uint8, "byte": types.Uint8, "uint16": types.Uint16, "uint32": types.Uint32, "uint64": types.Uint64, "uintptr": types.Uintptr,
 }
 
+// boundedQ: how many indices a symbolic quantifier range is expanded to in
+// a bounded stand-in run (parameter lengths are assumed within it there).
+const boundedQ = 5
+
 func (e *evalCtx) quant(t *ast.CallExpr, q string) Val {
 	if len(t.Args) != 4 {
 		e.fail("%s(i, lo, hi, body) expected", q)
@@ -320,6 +325,40 @@ func (e *evalCtx) quant(t *ast.CallExpr, q string) Val {
 	}
 	lo := e.intOf(t.Args[1])
 	hi := e.intOf(t.Args[2])
+	if e.c.bounded > 0 {
+		// bounded stand-in run: spell the quantifier out. Exact when the
+		// range is a literal of at most 64; otherwise the first boundedQ
+		// indices (the run assumes parameter lengths within that bound).
+		n := int64(boundedQ)
+		exact := false
+		if d, ok := isNumLit(sub(hi, lo)); ok && d.IsInt64() && d.Int64() <= 64 {
+			n = d.Int64()
+			exact = true
+		}
+		if n < 0 {
+			n = 0
+		}
+		var parts []string
+		for k := int64(0); k < n; k++ {
+			idx := add(lo, num(k))
+			inner := e.withBound(id.Name, mathInt(idx))
+			inner.inQuant = true // keep reads pure
+			body := inner.boolOf(t.Args[3])
+			in := "true"
+			if !exact {
+				in = sx("<", idx, hi)
+			}
+			if q == "forall" {
+				parts = append(parts, implies(in, body))
+			} else {
+				parts = append(parts, and(in, body))
+			}
+		}
+		if q == "forall" {
+			return boolVal(and(parts...))
+		}
+		return boolVal(or(parts...))
+	}
 	e.c.qctr++
 	bn := fmt.Sprintf("%s_q%d", id.Name, e.c.qctr)
 	inner := e.withBound(id.Name, mathInt(bn))
@@ -440,6 +479,29 @@ func (e *evalCtx) call(t *ast.CallExpr) Val {
 			return mathVal("(Array Int Int)", sx("strrow", a.S))
 		}
 		e.fail("row of kind %d", a.K)
+	case "before":
+		// before(e): e evaluated in the state in which the innermost
+		// enclosing loop was entered (loop invariants only)
+		if e.loopEntry == nil {
+			e.fail("before() is only available in loop invariants")
+		}
+		n := *e
+		n.st = e.loopEntry
+		return n.eval(t.Args[0])
+	case "newobj":
+		// newobj(x): x refers to an object allocated during the call
+		// (not before the pre-state); false for nil
+		if e.old == nil {
+			e.fail("newobj() outside a two-state context")
+		}
+		a := e.eval(t.Args[0])
+		switch a.K {
+		case kSlice, kPtr:
+			return boolVal(sx(">=", a.Ref, e.old.wm))
+		case kIface, kMap:
+			return boolVal(sx(">=", a.S, e.old.wm))
+		}
+		e.fail("newobj of kind %d", a.K)
 	case "sameobj":
 		a, b := e.eval(t.Args[0]), e.eval(t.Args[1])
 		return boolVal(eq(a.Ref, b.Ref))
@@ -676,7 +738,6 @@ func (e *evalCtx) index(t *ast.IndexExpr) Val {
 		k := e.eval(t.Index)
 		dk, vk, mt := c.mapKeys(x.T)
 		if mt.Key().Underlying() == types.Typ[types.String].Underlying() {
-			c.eng.usesStrID = true
 		}
 		ki := c.mapKeyIndex(mt, k)
 		vs := sortOf(mt.Elem())
